@@ -116,7 +116,11 @@ func VerifC18Activity() {
 		// blocks (a back-off stays pending), 2 = the dispatcher does not get
 		// to run at all (operations are committed in a burst)
 		mode := 0
-		switch vChoose(3) {
+		kinds := 3
+		if vParam("snaprestart", 1) == 1 {
+			kinds = 4
+		}
+		switch vChoose(kinds) {
 		case 0: // the next operation is committed
 			if len(pending) == 0 {
 				return
@@ -150,6 +154,29 @@ func VerifC18Activity() {
 			s.activity.SetLastPublishedRaftIndex(last)
 			vAssert(s.activity.BecomeLeader() == nil, "start")
 			vCover("restart")
+		case 3: // restart from a snapshot: Raft restores the metadata from the
+			// snapshot (the "published up to" marker is not part of it) and
+			// applies only later entries; log compaction has removed the
+			// entries the snapshot covers, except that it never passes an
+			// operation that is still unpublished (hashicorp/raft keeps
+			// 10240 trailing entries; a backlog that long is outside).
+			last := s.activity.LastPublishedRaftIndex()
+			vAssert(s.activity.BecomeFollower() == nil, "stop")
+			vYield()
+			s.activity = newActivityManager(s)
+			if vChoose(2) == 1 {
+				for idx := range vRaft.logs {
+					if idx <= last {
+						delete(vRaft.logs, idx)
+					}
+				}
+				if last+1 > vRaft.first {
+					vRaft.first = last + 1
+				}
+				vCover("log-compacted")
+			}
+			vAssert(s.activity.BecomeLeader() == nil, "start")
+			vCover("restart-from-snapshot")
 		}
 		if mode < 2 {
 			vYield()
